@@ -7,6 +7,10 @@ ROOT = os.path.dirname(os.path.dirname(os.path.abspath(__file__)))
 
 # id -> (technique, level text, level note, design ref)
 CHECKS = {
+    "C17": ("non-interference oracle on compiled programs for every parameter the real check reports unused; Lean theorem that a path reads only its own binding",
+            "Programs with 1..8 lower-case parameters (flat, nested, dotted; each used directly, through helpers/inlines/lets/lambdas, under a condition, only in a failing branch, or not at all; plus explicit-path programs) are given to the real check_unused; for every reported parameter, pairs of argument trees differing only in it are run through the compiled program with clvmr and must behave identically (same value or both fail). Kernel-checked part: for all patterns and values, what a program reads through one parameter's path depends only on that parameter's binding (coincidence lemma from the C01 path theorem). The evaluator (mash_conditions / shrink_bodyform) is not modelled; three genuine defect classes are listed in known_findings.json.",
+            "Differential and generator-bounded; the evaluator itself is not modelled.",
+            "DESIGN.md §4 C17"),
     "C15": ("Lean 4 invariant proof over a state-for-state model of the byte-at-a-time reader + full located-tree correspondence + independent slice oracle",
             "Kernel-checked for ALL texts: streaming (any chunking through push/finalize) = whole parse; one invariant over parser states gives that every returned form is well-located (leaf location = exactly the token's bytes incl. quotes; every list node and everything below it inside that list's delimiters), stated strictly for forms without the recorded defect shapes (each witnessed by a decide theorem on the real witness text) and unconditionally with them admitted; reader error locations are non-empty in-bounds byte ranges (no exclusion); reader totality. Byte-offset statements assume tab-free text. Model tied to code by comparing the full located tree / error of parse_sexp and ParsePartialResult on generated re-laid-out programs of every token kind, all shipped sources, mutations, truncations at every offset, token soup; the oracle slices every leaf from the text independently; compiler-error locations are oracle-only over 6 dialect sigils.",
             "Open findings listed in known_findings.json; compiler error locations and Srcloc::overlap/len are not covered by theorems; model/code tie is differential.",
